@@ -573,5 +573,47 @@ def rule_dead_handlers_silenced(ctx):
     c11c(ctx)
 
 
+
+def rule_setup_is_the_clients(ctx):
+    """C08.k  SETUP is a client frame.  RSocketBase.connect() queues it, and a server socket inherits every method of
+    the base class: no method defined in RSocketBase or RSocketServer - `__aenter__` included, which every
+    `async with server_socket:` runs - calls self.connect(); only methods defined in RSocketClient (or a subclass of it)
+    do, and connect() itself is the only function that builds a SETUP frame."""
+    rep = ctx.report
+    slots = ctx.slots
+    base, server, client = slots.RSocketBase, slots.RSocketServer, slots.RSocketClient
+    n = 0
+    for k in (base, server):
+        for name, f in sorted(k.methods.items()):
+            n += 1
+            calls = [x for x in walk_local(f.node) if isinstance(x, ast.Call) and isinstance(x.func, ast.Attribute) and
+                     x.func.attr == 'connect' and isinstance(x.func.value, ast.Name) and x.func.value.id == 'self']
+            if calls:
+                rep.bad('C08.k', '%s.%s / does not run the client\'s connect()' % (k.name, name), f,
+                        'self.connect() in a method a server socket inherits: a server that runs %s() queues a SETUP '
+                        'frame on an established connection' % name)
+    builders = set()
+    for f in ctx.repo.all_functions():
+        if not f.module.name.startswith('rsocket.') or f.module.name.startswith(('rsocket.cli', 'rsocket.frame')):
+            continue
+        for x in walk_local(f.node):
+            if isinstance(x, ast.Call) and (isinstance(x.func, ast.Name) and x.func.id in ('to_setup_frame', 'SetupFrame')
+                                            or isinstance(x.func, ast.Attribute) and
+                                            x.func.attr in ('to_setup_frame', '_create_setup_frame')):
+                builders.add(f.qualname.split(':')[-1])
+    ok = builders <= {'RSocketBase.connect', 'RSocketBase._create_setup_frame'}
+    rep.add('C08.k', 'SETUP frames / built by connect() only', base.lookup('connect'), ok and bool(builders),
+            'built in %s' % sorted(builders) if ok else 'SETUP frames are also built in %s' % sorted(
+                builders - {'RSocketBase.connect', 'RSocketBase._create_setup_frame'}))
+    rep.require('C08.k', 'methods a server socket inherits or defines', n, 40)
+    client_calls = [f.name for f in client.methods.values() if any(
+        isinstance(x, ast.Call) and isinstance(x.func, ast.Attribute) and x.func.attr == 'connect' and
+        isinstance(x.func.value, ast.Name) and x.func.value.id == 'self' for x in walk_local(f.node))]
+    rep.add('C08.k', 'RSocketClient / the methods that connect', client, bool(client_calls),
+            'self.connect() is called from %s' % sorted(client_calls) if client_calls else
+            'no method of the client calls connect(): `async with client` would not connect')
+
+
+
 RULES = [('C08.a', rule_a), ('C08.b', rule_b), ('C08.c', rule_c), ('C08.d', rule_d), ('C08.e', rule_e),
-         ('C08.f', rule_f), ('C08.g', rule_g), ('C05.a', rule_order), ('C13.a+C16.b', rule_h), ('C09.a+C20.d', rule_i), ('C08.i', rule_j), ('C07.e', rule_genpub), ('C01.a', rule_dispatch_by_own_id), ('C01.h', rule_adapter_delegations), ('C08.j', rule_channel_complete_flag), ('C11.c', rule_dead_handlers_silenced)]
+         ('C08.f', rule_f), ('C08.g', rule_g), ('C05.a', rule_order), ('C13.a+C16.b', rule_h), ('C09.a+C20.d', rule_i), ('C08.i', rule_j), ('C07.e', rule_genpub), ('C01.a', rule_dispatch_by_own_id), ('C01.h', rule_adapter_delegations), ('C08.j', rule_channel_complete_flag), ('C11.c', rule_dead_handlers_silenced), ('C08.k', rule_setup_is_the_clients)]
